@@ -248,4 +248,64 @@ Proof.
     intros _. eexists. reflexivity.
 Qed.
 
+Notation sumr := (Sums.sumr F 0 (spadd K)).
+Notation sumf := (sumF F 0 (spadd K)).
+
+(* ------------------------------------------------------------------------------------------ *)
+(** * constants are reproduced by the evaluator (partition of unity) *)
+Lemma adv_sumr_nth_sumF (l : list F) : forall a, sumr a (length l) (fun j => nth (j - a) l 0) = sumf l.
+Proof.
+  induction l as [|v l IH]; intros a; cbn [length Sums.sumr sumF]; [reflexivity|].
+  rewrite Nat.sub_diag. cbn [nth]. f_equal.
+  rewrite <- (IH (S a)). apply Sums.sumr_ext. intros i Hi.
+  replace (i - a)%nat with (S (i - S a)) by lia. reflexivity.
+Qed.
+Lemma adv_sumr_scale c (g : nat -> F) : forall m a, sumr a m (fun j => c * g j) = c * sumr a m g.
+Proof. induction m as [|m IH]; intros a; cbn [Sums.sumr]; [ring|]. rewrite IH. ring. Qed.
+
+Lemma adv_dot_const coeffs c start n basis : length basis = n -> (start + n <= length coeffs)%nat ->
+  (forall i, (i < length coeffs)%nat -> nth i coeffs 0 = c) ->
+  sp_dot_loop F K coeffs start n basis = c * sumf basis.
+Proof.
+  intros Hl Hb Hc. rewrite (sp_dot_loop_sum F K HK).
+  rewrite (Sums.sumr_ext F 0 (spadd K) 0 n _ (fun j => c * nth (j - 0) basis 0)).
+  - rewrite adv_sumr_scale. rewrite <- Hl, adv_sumr_nth_sumF. reflexivity.
+  - intros i Hi. rewrite Hc by lia. rewrite Nat.sub_0_r. reflexivity.
+Qed.
+
+(** uniform-cubic path: whenever the evaluation succeeds, a spline with all coefficients c has the value c *)
+Theorem adv_ev_const_cu knots deg coeffs c x v :
+  (forall i, (i < length coeffs)%nat -> nth i coeffs 0 = c) ->
+  adv_ev F K true knots deg coeffs x = SpOk v -> v = c.
+Proof.
+  intros Hc. unfold adv_ev, sp_cu_eval_1d_scalar.
+  destruct (sp_cu_unpack F K knots) as [[[[xmin xmax] dx] nc]| | | |]; cbn [sp_bind]; try discriminate.
+  unfold sp_cu_point. destruct (sp_cu_find_span F K xmin xmax dx x nc) as [so| | | |]; cbn [sp_bind]; try discriminate.
+  cbn [sp_cu_basis_sel sp_bind].
+  destruct (sp_span_nat (fst so)) as [span| | | |]; cbn [sp_bind]; try discriminate.
+  unfold sp_dot_checked. destruct (Nat.leb_spec 3 span); [|discriminate].
+  destruct (Nat.ltb_spec span (length coeffs)); [|discriminate]. cbn [andb]. intros E. injection E as <-.
+  rewrite (adv_dot_const coeffs c (span - 3) 4 (sp_cu_basis_funs F K (snd so))); [|reflexivity|lia|exact Hc].
+  rewrite (sp_cu_basis_sum_one F K HK). ring.
+Qed.
+
+(** general path: the same on a sorted knot list when the span found is a genuine interval *)
+Theorem adv_ev_const_nu knots deg coeffs c x v :
+  sp_sorted F K knots ->
+  (forall s, sp_nu_find_span F K knots deg x = SpOk s -> sp_span_ok F K knots s) ->
+  (forall i, (i < length coeffs)%nat -> nth i coeffs 0 = c) ->
+  adv_ev F K false knots deg coeffs x = SpOk v -> v = c.
+Proof.
+  intros Hs Hspan Hc. unfold adv_ev, sp_nu_eval_1d_scalar.
+  destruct (sp_nu_find_span F K knots deg x) as [span| | | |] eqn:Es; cbn [sp_bind]; try discriminate.
+  specialize (Hspan span eq_refl).
+  unfold sp_nu_basis_funs. destruct ((deg <=? span)%nat && (span + deg <? length knots)%nat) eqn:Eg; [|discriminate].
+  destruct (sp_denoms_ok F K (sp_kn F K knots) x span deg); cbn [sp_bind]; [|discriminate].
+  apply andb_true_iff in Eg. destruct Eg as [Eg1 _]. apply Nat.leb_le in Eg1.
+  unfold sp_dot_checked. destruct (Nat.leb_spec deg span); [|discriminate].
+  destruct (Nat.ltb_spec span (length coeffs)); [|discriminate]. cbn [andb]. intros E. injection E as <-.
+  rewrite (adv_dot_const coeffs c (span - deg) (S deg) (sp_A22 F K knots deg x span));
+    [|apply (sp_A22_length F K)|lia|exact Hc].
+  rewrite (sp_A22_sum_one F K HK) by assumption. ring.
+Qed.
 End AdvTheory.
